@@ -70,9 +70,7 @@ def lock_subdir(ctx):
 def model_check(ctx, quick):
     ctx.mc("mc/MC_DSLProgram", label="MC 12 functions, 3 calls")
     if not quick:
-        ctx.mc("mc/MC_DSLProgram", label="MC 8 functions, 4 calls", timeout=1500,
-               consts={"Fns": tla_set(["Service", "Method", "Payload", "Attribute", "HTTP", "Param", "Security", "Server"]),
-                       "MaxCalls": 4, "MaxDepth": 4, "MaxMisplaced": 1, "MaxTop": 2})
+        ctx.mc("mc/MC_DSLProgram", label="MC 12 functions, 4 calls", timeout=1500, consts={"MaxCalls": 4, "MaxDepth": 4})
 
     def one(dev):
         fns, calls, mis, pools = DEVS[dev][:4]
@@ -88,20 +86,22 @@ def model_check(ctx, quick):
 # ------------------------------------------------------------------ (G) generation
 def generate(ctx, quick):
     """TLC-generated programs with the specification's reading of each: [{"nodes", "dangling", "triggers", ...}]."""
-    runs = [("gen/Gen_DSLProgram_http.cfg", None, "Gen exhaustive http")]
+    runs = [("gen/Gen_DSLProgram_http.cfg", None, "Gen exhaustive http", {"MaxCalls": 6} if quick else {"MaxCalls": 7, "MinCalls": 5})]
     if not quick:
         runs += [("gen/Gen_DSLProgram_resp.cfg", None, "Gen exhaustive resp"), ("gen/Gen_DSLProgram_types.cfg", None, "Gen exhaustive types")]
-    nsim = (60, 60, 60) if quick else (700, 500, 500)      # traces per worker (TLC runs one simulation per worker)
+    nsim = (60, 60, 60) if quick else (1400, 1000, 1000)      # traces per worker (TLC runs one simulation per worker)
     runs += [("gen/Gen_DSLProgram_sim.cfg", nsim[0], "Gen simulate full table"),
              ("gen/Gen_DSLProgram_doc.cfg", nsim[1], "Gen simulate documented shapes"),
              ("gen/Gen_DSLProgram_refs.cfg", nsim[2], "Gen simulate reference-rich")]
     # focused walks: a fixed spine (one service, method, transport block, payload/result) and a handful of functions around one kind of reference
     for name in ("map", "err", "body", "tag", "grpc", "view"):
-        runs.append(("gen/Gen_DSLProgram_%s.cfg" % name, 100 if quick else 600, "Gen simulate focused " + name))
+        runs.append(("gen/Gen_DSLProgram_%s.cfg" % name, 100 if quick else 1000, "Gen simulate focused " + name))
 
     def one(r):
-        cfg, sim, label = r
+        cfg, sim, label = r[:3]
         kw = dict(label=label, timeout=2400, heap="6g")
+        if len(r) > 3:
+            kw["consts"] = r[3]
         if sim:
             kw.update(simulate=sim, depth=200)
         return ctx.gen("mc/MC_DSLProgram", cfg, **kw).vectors
@@ -391,7 +391,7 @@ def run(ctx):
     ctx.cov["seed_programs"] = len(seeds)
     programs = [{"id": i + 1, "nodes": v["nodes"]} for i, v in enumerate(vectors)]
     host.check_tokens(programs)
-    nmut = int(os.environ.get("VERIF_C12_MUTANTS") or (1500 if quick else 12000))
+    nmut = int(os.environ.get("VERIF_C12_MUTANTS") or (1500 if quick else 20000))
     lines = host.run(programs, random=nmut, label="programs")
     ctx.log("executed %d programs (%d from TLC, %d mutants)" % (len(lines), len(programs), len(lines) - len(programs)))
     # TLC's reading of the mutants (for keys and the evidence only; the judge of the mutants is the trace specification)
